@@ -263,7 +263,7 @@ Proof.
     destruct (apply_map_at _ _ _ _ _ _ _ Hk E) as (e0 & He0 & Es & [(_ & _ & o & Ho & Hod & Ei & _)|[(Hh & _ & t & _ & _ & _ & _ & Est)|(_ & _ & Ei & _)]]);
       rewrite Hz in He0; inversion He0; subst e0.
     - rewrite Ei. apply (Hi p w o e'); auto.
-      unfold is_hardlink, AbsDest.is_reg. rewrite Hod. reflexivity.
+      unfold is_hardlink, is_node. rewrite Hod. reflexivity.
     - rewrite Est, (link_stat_is_hardlink _ _ Hh) in Lz. congruence.
     - rewrite Ei. specialize (Hl _ _ Hw'). lia. }
   destruct (apply_map_old _ _ _ _ _ _ _ E H1) as [Ex|O1], (apply_map_old _ _ _ _ _ _ _ E H2) as [Ey|O2].
@@ -314,7 +314,7 @@ Proof.
   destruct (apply_map_at _ _ _ _ _ _ _ Hk Ea) as (e & He & Es & Hc).
   exists e. rewrite (Hfr p (or_introl eq_refl)). split; auto. split; auto. split.
   - intros Hh Hlt. destruct Hc as [(Hd & _)|[(_ & _ & t & Ht & Htd & Ei & Eb & Est)|(Hn & _)]].
-    + unfold is_hardlink, AbsDest.is_reg in Hh. rewrite Hd in Hh. discriminate.
+    + unfold is_hardlink, is_node in Hh. rewrite Hd in Hh. discriminate.
     + exists t. rewrite (Hfr _ (or_intror Hlt)).
       rewrite (apply_map_frame _ _ _ _ _ (st_linkname st) Ea); auto.
       unfold ch_path. simpl. destruct (at_or_below p (st_linkname st)) eqn:Ab; auto.
